@@ -686,6 +686,16 @@ class Folder:
             return Regex(args[0], int(flags))
         if name == "re.escape":
             return re.escape(args[0])
+        if name == "dict.fromkeys" and args:
+            seq = args[0]
+            if isinstance(seq, (USet, _Unordered)) or (isinstance(seq, _Gen) and getattr(seq, "unordered", False)):
+                self.hazard(e, "dict.fromkeys() of a set keeps its iteration order")
+            items = seq.items if isinstance(seq, (_Gen, _Unordered)) else self._iter(seq, e)
+            out_l: list = []
+            for x in items:
+                if x not in out_l:
+                    out_l.append(x)
+            return out_l  # used for its keys in definition order (iteration / join); values are not modelled
         if name in ("itertools.chain", "chain"):
             out: list = []
             unordered = False
